@@ -11,6 +11,7 @@ import (
 	"encoding/json"
 	"fmt"
 	"io"
+	"runtime"
 	"strings"
 	"time"
 
@@ -137,7 +138,7 @@ func mutants(d any, tier string) []mutant {
 	walk = func(v any, path string, rebuild func(with any) any) {
 		switch x := v.(type) {
 		case map[any]any:
-			for k := range x {
+			for _, k := range ukit.SortedAnyKeys(x) {
 				k := k
 				without := map[any]any{}
 				for a, b := range x {
@@ -247,6 +248,10 @@ type replay struct {
 	BaseI int    `json:"base_index"`
 	Kind  string `json:"kind"`
 	Tier  string `json:"tier"`
+	// History marks a finding of the load-history pass: it needs the rejected loads of its whole batch before it
+	History bool `json:"history,omitempty"`
+	Lo      int  `json:"lo,omitempty"`
+	Hi      int  `json:"hi,omitempty"`
 }
 
 type helloChannel struct {
@@ -257,8 +262,47 @@ type helloChannel struct {
 func (helloChannel) Close() error { return nil }
 
 type checker struct {
-	res *ux.Result
-	rp  replay
+	res      *ux.Result
+	rp       replay
+	rejected *[]reload // loads that returned an error, for the load-history pass
+}
+
+// reload is one rejected load to be repeated later in the same process.
+type reload struct {
+	rp   replay
+	load func() (any, error)
+	use  func(c *checker, sch any)
+}
+
+func (c *checker) note(load func() (any, error), use func(c *checker, sch any)) {
+	if c.rejected != nil {
+		*c.rejected = append(*c.rejected, reload{c.rp, load, use})
+	}
+}
+
+// historyPass: the verdict of a load must not depend on what was loaded before. Every description that was rejected
+// in this batch is loaded again, twice, each time after a garbage collection (so that state kept from the earlier,
+// failed loads - pooled scratch data, caches keyed by address - meets recycled memory); it must be rejected again.
+func historyPass(res *ux.Result, lo int, rejected []reload) {
+	for pass := 0; pass < 2; pass++ {
+		runtime.GC()
+		for _, r := range rejected {
+			ux.Progress(r.rp.Index - lo)
+			c := &checker{res: res, rp: r.rp}
+			c.rp.History = true
+			var sch any
+			var err error
+			if !c.guard("at load time (repeated load)", r.rp.Entry, func() { sch, err = r.load() }) {
+				continue
+			}
+			res.Evaluations++
+			if err == nil {
+				c.fail("a description that was rejected is accepted when loaded again in the same process ("+r.rp.Entry+")",
+					fmt.Sprintf("base %s\nmutation: %s\nfirst load: error; repeated load after other rejected loads and a GC: accepted", r.rp.Base, r.rp.What))
+				r.use(c, sch)
+			}
+		}
+	}
 }
 
 func (c *checker) fail(sig, detail string) { c.res.Add(sig, detail, c.rp) }
@@ -333,6 +377,8 @@ func (c *checker) checkScope(b base, m mutant, values []any) {
 		c.res.Evaluations++
 		if err != nil {
 			c.res.Count("rejected_with_error", 1)
+			c.note(func() (any, error) { return schema.UnserializeScope(ukit.DeepCopy(m.Desc)) },
+				func(c *checker, sch any) { c.exercise("scope", sch.(*schema.ScopeSchema), values) })
 			continue
 		}
 		c.res.Count("accepted", 1)
@@ -362,10 +408,18 @@ func (c *checker) checkPlugin(b base, m mutant, values []any) {
 		c.res.Evaluations++
 		if err != nil {
 			c.res.Count("rejected_with_error", 1)
+			f := entries[entry]
+			c.note(func() (any, error) { return f() }, func(c *checker, sch any) { c.usePlugin(sch.(*schema.SchemaSchema), values) })
 			continue
 		}
 		c.res.Count("accepted", 1)
 		c.res.Nontrivial++
+		c.usePlugin(sch, values)
+	}
+}
+
+func (c *checker) usePlugin(sch *schema.SchemaSchema, values []any) {
+	{
 		c.guard("on first use", "SelfSerialize", func() { _, _ = sch.SelfSerialize() })
 		for id, st := range sch.StepsValue {
 			if st == nil {
@@ -420,12 +474,16 @@ func runRangeFrom(tier string, b batch, from int, res *ux.Result, onlyIdx int) {
 	if hi > len(ms) {
 		hi = len(ms)
 	}
+	var rejected []reload
 	for i := b.Lo + from; i < hi; i++ {
 		if onlyIdx >= 0 && i != onlyIdx {
 			continue
 		}
 		ux.Progress(i - b.Lo)
-		c := &checker{res: res, rp: replay{Base: bb.Name, What: ms[i].What, Index: i, BaseI: b.Base, Kind: b.Kind, Tier: tier}}
+		c := &checker{res: res, rp: replay{Base: bb.Name, What: ms[i].What, Index: i, BaseI: b.Base, Kind: b.Kind, Tier: tier, Lo: b.Lo, Hi: b.Hi}}
+		if onlyIdx < 0 {
+			c.rejected = &rejected
+		}
 		if bb.Kind == "plugin" && b.Kind != "free" {
 			c.checkPlugin(bb, ms[i], values)
 		} else {
@@ -434,6 +492,9 @@ func runRangeFrom(tier string, b batch, from int, res *ux.Result, onlyIdx int) {
 				c.checkPlugin(bb, ms[i], values)
 			}
 		}
+	}
+	if onlyIdx < 0 {
+		historyPass(res, b.Lo, rejected)
 	}
 }
 
@@ -486,10 +547,15 @@ func main() {
 				return nil
 			}
 			var res ux.Result
+			if r.History {
+				// needs the failed loads that came before it: the whole batch is run again
+				runRange(r.Tier, batch{r.BaseI, r.Kind, r.Lo, r.Hi}, &res, -1)
+				return res.Findings
+			}
 			runRange(r.Tier, batch{r.BaseI, r.Kind, 0, 1 << 30}, &res, r.Index)
 			return res.Findings
 		},
-		Rule: "base descriptions: self-descriptions (CBOR-normalised) of ~18 scopes (references under properties / lists / maps / one-of, recursive and mutually recursive objects, nested scope with colliding ids, struct-mapped objects, all one-of flavours, an object with units, patterns, enums with display names, defaults and every presence rule) (thorough: plus the depth-2 universe) and one whole plugin schema; every single mutation at every node: value retyped to each of 12 alien values, key replaced, entry deleted, entry duplicated, id / root / namespace / discriminator re-pointed, inlining flag flipped, default replaced by unparsable JSON, pattern replaced by '(', type_id replaced; plus a grammar-free family of ~3000 trees of depth <= 2 over the meta-schema's key vocabulary; entry points UnserializeScope, UnserializeSchema and Client.ReadSchema (real hello bytes); every schema that is returned is exercised: SelfSerialize, ValidateReferences, and the four operations on valid values of the base, the same with hostile values one level down, and hostile values at top level; non-trivial = mutants that were accepted (and therefore exercised)",
+		Rule: "base descriptions: self-descriptions (CBOR-normalised) of ~18 scopes (references under properties / lists / maps / one-of, recursive and mutually recursive objects, nested scope with colliding ids, struct-mapped objects, all one-of flavours, an object with units, patterns, enums with display names, defaults and every presence rule) (thorough: plus the depth-2 universe) and one whole plugin schema; every single mutation at every node: value retyped to each of 12 alien values, key replaced, entry deleted, entry duplicated, id / root / namespace / discriminator re-pointed, inlining flag flipped, default replaced by unparsable JSON, pattern replaced by '(', type_id replaced; plus a grammar-free family of ~3000 trees of depth <= 2 over the meta-schema's key vocabulary; entry points UnserializeScope, UnserializeSchema and Client.ReadSchema (real hello bytes); every schema that is returned is exercised: SelfSerialize, ValidateReferences, and the four operations on valid values of the base, the same with hostile values one level down, and hostile values at top level; load history: every description rejected in a batch of 400 is loaded again twice in the same process, each time after a garbage collection, and must be rejected again (whatever is returned is exercised); non-trivial = mutants that were accepted (and therefore exercised)",
 		Assumptions: []string{
 			"single mutation per description (double mutations are not enumerated)",
 			"a panic at load time or on first use is a violation; errors are the expected outcome",
